@@ -47,6 +47,7 @@ class Sub:
             base = o.offset if o.model == 'offsets' else t.ZERO
             a = (sc.ident, obj, t.add(o.pos if pos is None else pos, base), H, D, c)
             self.ok = t.app('B_ok', t.BOOL, *a)
+            self.exc = t.app('B_exc', t.INT, *a)
             self.ret = t.app('B_ret', t.VAL, *a)
             self.bytes = t.app('B_bytes', t.ARR, *a)
             self.len = t.app('B_len', t.INT, *a)
